@@ -41,17 +41,9 @@ def _own_stmt_calls(fn: ast.AST, name: str, recv_suffix: Optional[str] = None) -
     return out
 
 
-def check_c08(idx: Index, tier: str, res: Result) -> None:
-    res.explanation = ("(1) invalidate-on-edit: every member of the SD-DSL element classes that recompiles an element's function "
-                       "(calls generate_function) calls model.reset_cache() on every path, and both cache resets clear *every* memo "
-                       "entry; the scenario reset also drops the live simulation; every settings channel that re-parameterises an "
-                       "already-run scenario resets first. (2) lockset: a table that is probed and later written by code reachable "
-                       "from a Thread target started in a loop over one shared object must be accessed under a lock.")
-    res.rules = ["MUSTCALL: product-graph dataflow 'reset_cache called' to every exit that recompiled",
-                 "CLEAR: shape of the two reset_cache bodies", "LOCKSET: check-then-act on shared tables under worker threads"]
-    res.not_decided = ["actual interleavings (that is model checking)", "equality of results with a freshly built model (numeric)",
-                       "user code that edits model.equations directly"]
-    # ---- (1) invalidate on edit --------------------------------------------------------------------
+def invalidate_on_edit(idx: Index, res: Result, rule: str = "MUSTCALL") -> int:
+    """Shared by C08 and C01: every member of the DSL that recompiles an element's function reaches model.reset_cache() on every
+    path to its exit (product-graph dataflow) - otherwise values memoised from the old definition are reported for the new model."""
     nmembers = 0
     for fi in idx.all_funcs("BPTK_Py/sddsl/"):
         if not fi.cls or fi.node.name in ("generate_function",):
@@ -61,7 +53,7 @@ def check_c08(idx: Index, tier: str, res: Result) -> None:
             continue
         label = "%s.%s" % (fi.cls, fi.node.name) + (".setter" if fi.qual.endswith(".setter") else "")
         if ("%s.%s" % (fi.cls, fi.node.name)) in EXEMPT and not fi.qual.endswith(".setter"):
-            res.ob("MUSTCALL", "%s recompiles (exempt: %s)" % (label, EXEMPT["%s.%s" % (fi.cls, fi.node.name)]), True, nontrivial=False)
+            res.ob(rule, "%s recompiles (exempt: %s)" % (label, EXEMPT["%s.%s" % (fi.cls, fi.node.name)]), True, nontrivial=False)
             continue
         nmembers += 1
         cfg = build_cfg(fi.node, fi.qual)
@@ -77,13 +69,27 @@ def check_c08(idx: Index, tier: str, res: Result) -> None:
             return [(recompiled, reset)]
         flow = Flow(cfg, [(False, False)], tr)
         bad = [f for f in flow.at[cfg.exit] if f[0] and not f[1]]
-        res.check("MUSTCALL", "%s resets the model cache whenever it recompiles" % label, not bad, fi.loc(), fi.qual,
+        res.check(rule, "%s resets the model cache whenever it recompiles" % label, not bad, fi.loc(), fi.qual,
                   "self.generate_function() without self.model.reset_cache()",
                   "%s changes the element's definition (recompiles its function) on a path that never calls "
                   "model.reset_cache(): values of dependent elements memoised earlier stay stale; path: %s"
                   % (label, " ".join(flow.witness(cfg.exit, bad[0], 16)) if bad else ""),
-                  key="MUSTCALL/%s/reset_cache" % label)
-    res.floor("definition-changing members of sddsl", nmembers, 5)
+                  key="%s/%s/reset_cache" % (rule, label))
+    return nmembers
+
+
+def check_c08(idx: Index, tier: str, res: Result) -> None:
+    res.explanation = ("(1) invalidate-on-edit: every member of the SD-DSL element classes that recompiles an element's function "
+                       "(calls generate_function) calls model.reset_cache() on every path, and both cache resets clear *every* memo "
+                       "entry; the scenario reset also drops the live simulation; every settings channel that re-parameterises an "
+                       "already-run scenario resets first. (2) lockset: a table that is probed and later written by code reachable "
+                       "from a Thread target started in a loop over one shared object must be accessed under a lock.")
+    res.rules = ["MUSTCALL: product-graph dataflow 'reset_cache called' to every exit that recompiled",
+                 "CLEAR: shape of the two reset_cache bodies", "LOCKSET: check-then-act on shared tables under worker threads"]
+    res.not_decided = ["actual interleavings (that is model checking)", "equality of results with a freshly built model (numeric)",
+                       "user code that edits model.equations directly"]
+    # ---- (1) invalidate on edit --------------------------------------------------------------------
+    res.floor("definition-changing members of sddsl", invalidate_on_edit(idx, res), 5)
     # generate_function clears the element's own memo entry
     gf = idx.func("BPTK_Py/sddsl/element.py", "Element.generate_function")
     own = [n for n in walk_no_nested(gf.node) if isinstance(n, ast.Assign) and isinstance(n.targets[0], ast.Subscript)
@@ -260,6 +266,22 @@ def _lockset(idx: Index, res: Result, starter: FuncInfo, target: FuncInfo) -> No
 
 def _check_then_act(res: Result, starter: FuncInfo, target: FuncInfo, fi: FuncInfo) -> None:
     assigns = single_assignments(fi.node)
+    # plain attributes of the shared object written by a worker and read back by the same code: every worker writes the same slot,
+    # so between one worker's write and its read another worker's value can be there
+    for n in walk_no_nested(fi.node):
+        tgs = n.targets if isinstance(n, ast.Assign) else ([n.target] if isinstance(n, ast.AugAssign) else [])
+        for t in tgs:
+            d = dotted(t) if isinstance(t, ast.Attribute) else None
+            if not d or not d.startswith("self.") or d.count(".") != 1:
+                continue
+            locked = any(isinstance(w, ast.With) and any(x is n for x in ast.walk(w)) for w in ast.walk(fi.node))
+            readback = [x for x in walk_no_nested(fi.node) if isinstance(x, ast.Attribute) and isinstance(x.ctx, ast.Load) and dotted(x) == d]
+            res.check("LOCKSET", "%s: worker-written attribute %s is not read back unlocked" % (fi.qual, d), locked or not readback, fi.loc(n), fi.qual,
+                      norm_stmt(n)[:80],
+                      "%s stores into %s and reads it back (%s) without a lock, while %s starts one thread per requested equation over this one "
+                      "object: a second thread's store can land between the two, so the value read belongs to another thread's argument - "
+                      "the wrong time step is looked up and memoised" % (fi.qual, d, "line %d" % readback[0].lineno if readback else "", starter.qual),
+                      key="LOCKSET/%s/attr=%s/threads=%s" % (fi.qual, d.split(".")[-1], target.qual))
     # local aliases of attribute tables: mymemo = self.memo[equation]
     alias: Dict[str, str] = {}
     own_params = set(params(fi.node)[1:]) if fi is target else set()
